@@ -194,9 +194,10 @@ type udpSrv struct {
 	script [][]byte
 	got    [][]byte
 	seen   chan struct{}
-	// datagrams to send 90 ms after the next request (strays of an exchange that has ended by then)
+	// datagrams to send in answer to the next request once the executor says its exchange has ended (strays)
 	late     [][]byte
 	lateDone chan struct{}
+	lateGo   chan struct{}
 }
 
 func newUDPSrv() (*udpSrv, error) {
@@ -204,7 +205,7 @@ func newUDPSrv() (*udpSrv, error) {
 	if err != nil {
 		return nil, err
 	}
-	s := &udpSrv{pc: pc, seen: make(chan struct{}, 64), lateDone: make(chan struct{}, 64)}
+	s := &udpSrv{pc: pc, seen: make(chan struct{}, 64), lateDone: make(chan struct{}, 64), lateGo: make(chan struct{}, 1)}
 	go func() {
 		buf := make([]byte, 65536)
 		for {
@@ -225,7 +226,11 @@ func newUDPSrv() (*udpSrv, error) {
 			s.mu.Unlock()
 			if late != nil {
 				go func(addr net.Addr) {
-					time.Sleep(90 * time.Millisecond)
+					// strictly after the exchange has ended: the executor says so (no timing assumption)
+					select {
+					case <-s.lateGo:
+					case <-time.After(3 * time.Second):
+					}
 					for _, d := range late {
 						_, _ = pc.WriteTo(d, addr)
 					}
@@ -245,10 +250,15 @@ func (s *udpSrv) arm(script [][]byte) {
 	s.mu.Lock()
 	s.script = script
 	s.got = nil
+	s.late = nil
 	s.mu.Unlock()
 	for {
 		select {
 		case <-s.seen:
+			continue
+		case <-s.lateGo:
+			continue
+		case <-s.lateDone:
 			continue
 		default:
 		}
@@ -662,7 +672,12 @@ func execHistory(f []string, srv *udpSrv) (string, bool) {
 				cancel()
 				got := srv.received()
 				if lateScript != nil && len(got) > 0 {
-					// let the strays leave (and reach whatever socket is still open for them) before the next operation
+					// the exchange is over: now the strays leave (and reach whatever socket is still open for them), before
+					// the next operation starts
+					select {
+					case srv.lateGo <- struct{}{}:
+					default:
+					}
 					select {
 					case <-srv.lateDone:
 					case <-time.After(500 * time.Millisecond):
